@@ -246,6 +246,12 @@ def run(scn):
                         f"were transferred", kind="early_release", **base)
                 break
             t_final = reads[n - 1][0]
+            on_pins = [c for (c, w, r) in env.sent if r == k and c <= pe]
+            if len(on_pins) < n:
+                # (judged from what the memory really put on the pins, not from the interface's own read_ready)
+                add(pe, "C53.cs_held", f"request #{k} ({kind}, {n} words): CS released in cycle {pe} when the memory had delivered only "
+                    f"{len(on_pins)} word(s)", kind="early_release", **base)
+                break
             if pe <= t_final:
                 add(pe, "C53.cs_held", f"request #{k} ({kind}): CS released in cycle {pe}, before the final word (cycle {t_final})",
                     kind="early_release", **base)
